@@ -487,6 +487,20 @@ class Ovld:
             self.compile()
 
     def compile(self):
+        try:
+            self._compile()
+        except BaseException:
+            # Do not leave a half-built table in service: the next call
+            # builds again (and reports the problem again if it persists).
+            self._compiled = False
+            if hasattr(self, "dispatch"):
+                fresh = bootstrap_dispatch(self, name=self.shortname)
+                self.dispatch.__code__ = fresh.__code__
+                self.dispatch.__defaults__ = None
+                self.dispatch.__kwdefaults__ = None
+            raise
+
+    def _compile(self):
         """Finalize this overload.
 
         This will populate the type maps and replace the functions decorated
